@@ -98,6 +98,16 @@ func c20Proc(part int) {
 		ai = vapi.Pick("alt", len(altShapes))
 	}
 	raw.AlternativeNames = append([]string{}, altShapes[ai]...)
+	// proxy method and server name are opaque strings (the server's ProxyBook keys are case-sensitive): passed through verbatim
+	methods := []string{"shadowsocks", "OpenVPN", "Tor-X_1", "SHADOWSOCKS"}
+	names := []string{"www.bing.com", "WWW.Example.COM"}
+	mi, ni := 0, 0
+	if part == 2 {
+		mi = vapi.Pick("method", len(methods))
+		ni = vapi.Pick("servername", len(names))
+	}
+	raw.ProxyMethod = methods[mi]
+	raw.ServerName = names[ni]
 
 	numConn, keepAlive, streamTimeout, udp := raw.NumConn, raw.KeepAlive, raw.StreamTimeout, raw.UDP
 	var local LocalConnConfig
@@ -129,7 +139,7 @@ func c20Proc(part int) {
 		vapi.Assert(local.Timeout == time.Duration(streamTimeout)*time.Second, "C20: StreamTimeout is in seconds")
 	}
 	vapi.Assert(auth.Unordered == udp, "C20: UDP selects unordered mode")
-	vapi.Assert(auth.ProxyMethod == "shadowsocks" && auth.MockDomain == "www.bing.com", "C20: proxy method and server name passed through")
+	vapi.Assert(auth.ProxyMethod == methods[mi] && auth.MockDomain == names[ni], "C20: proxy method and server name passed through verbatim")
 	vapi.Assert(remote.RemoteAddr == "203.0.113.5:443" && local.LocalAddr == "127.0.0.1:1984", "C20: addresses composed from host and port")
 	if trCDN[ti] {
 		host := "203.0.113.5"
@@ -146,7 +156,7 @@ func c20Proc(part int) {
 		vapi.Assert(remote.Transport.mode == "direct", "C20: direct is the default transport")
 		vapi.Assert(remote.Transport.browser == brWant[bi], "C20: BrowserSig chrome/firefox/safari (any case), default chrome")
 	}
-	want := append(append([]string{}, altWant[ai]...), "www.bing.com")
+	want := append(append([]string{}, altWant[ai]...), names[ni])
 	vapi.Assert(len(local.MockDomainList) == len(want), "C20: mock-domain list = non-empty AlternativeNames + ServerName")
 	for i := range want {
 		if i < len(local.MockDomainList) {
